@@ -397,6 +397,11 @@ func TestVerif_C07_node(t *testing.T) {
 	})
 
 	lap("roundtrip")
+	if os.Getenv("VERIF_C07_PHASES") == "roundtrip" {
+		// developer knob (used to confirm mutants quickly): the run is reported as not exhaustive
+		r.Capped("restricted to the round-trip phase by VERIF_C07_PHASES")
+		return
+	}
 	// ---- (b1) every byte string up to maxLen
 	nAll := verifmc.NumBytesUpTo(maxLen)
 	const chunk = 4096
